@@ -301,7 +301,7 @@ class EntryPoints(Lane):
 
 def body(chk):
     quick = chk.tier == 'quick'
-    hl = 3 if quick else 4
+    hl = 3 if quick else 6
     run_lane(chk, Setup, (hl,), bounds={'scheme': 'ldap | ldaps | ldapi | any other 4 lowercase letters', 'host': f'None | "" | 1..{hl} symbolic host characters (incl. percent sequences)', 'port': 'None | any u16',
                                          'pre-opened stream': 'None | Tcp | Unix | Invalid', 'timeout': 'None | any', 'StartTLS': 'symbolic'},
              selftest=False, variant='tls', need_regions=('ldap/none', 'ldaps/none', 'ldapi/none', 'ldap/Tcp', 'ldapi/Unix', 'None/none'))
